@@ -359,7 +359,7 @@ Definition finish_body (k : nat) (rets : list (list Z)) (s : state) : cres * sta
   end.
 
 (* ------------------------------------------------------------------ the schedule interpreter *)
-Inductive field := FB (b : bool) | FS (t : string) | FN (n : nat) | FV (v : list Z).
+Inductive field := FB (b : bool) | FS (t : string) | FN (n : nat) | FV (v : list Z) | FP (p : option nat).
 
 Record line := mkLine { l_who : option nat; l_dep : nat; l_tag : string; l_fields : list field }.
 
@@ -399,8 +399,8 @@ Definition tail_zero (c : co) : bool := forallb (Z.eqb 0) (skipn (co_stored c) (
 
 Definition status_fields (k : nat) (s : state) : list field :=
   match get k (cos s) with
-  | None => [FS (co_status k s); FN 0; FB true; FB false]
-  | Some c => [FS (co_status k s); FN (co_stored c); FB (tail_zero c); FB (co_reg c)]
+  | None => [FS (co_status k s); FN 0; FB true; FB false; FP None]
+  | Some c => [FS (co_status k s); FN (co_stored c); FB (tail_zero c); FB (co_reg c); FP (co_prev c)]
   end.
 
 Definition panic_line (w : option nat) (s : state) (m : string) : line :=
@@ -479,7 +479,7 @@ Definition step (o : op) (s : state) : state * list line :=
   | ODrop k len =>
     let '(e, s1, _) := mco_pop k false len s in (s1, [mkLine w d "drop" (cres_fields (cres_of e))])
   | OStatus k => (s, [mkLine w d "status" (status_fields k s)])
-  | OStatusMain => (s, [mkLine w d "status" [FS (main_status s); FN 0; FB true; FB false]])
+  | OStatusMain => (s, [mkLine w d "status" [FS (main_status s); FN 0; FB true; FB false; FP None]])
   | OIsYieldable => (s, [mkLine w d "isyieldable" [FB (co_isyieldable s)]])
   | ORunning =>
     (s, [mkLine w d "running" (match w with None => [FS "main"; FB true] | Some k => [FN k; FB false] end)])
